@@ -229,3 +229,27 @@ def prologue_contract():
     c = Contract("string_to_node", {"check_ops": T.bool}, ensures=ensures, region=region, raises=lambda S, a, e: z3.BoolVal(False))
     c.region_name = "prologue"
     return c
+
+
+def count_nodes_contract():
+    """DecoratedNode.count_nodes(basis) is the length of the label list to_list(basis) gives for the same node and basis (to_list opaque: a list whose length is a function
+    of the node and the basis -- its purity is A-sympy / bounded).  With the selection contract of string_to_node: the complexity returned is the number of labels of the
+    returned tree."""
+    TLEN = z3.Function("to_list.len", Fn, Fn, I)
+
+    def mk_self(eng, st):
+        return VFn(z3.Const("self.node", Fn))
+
+    def setup(eng, st, args):
+        def m_to_list(e, s, recv, a, kw, node):
+            n = TLEN(_fnt(recv), _fnt(a[0]))
+            e.axioms.append(n >= 0)
+            return s.alloc(HSeq(n, lambda k: VFn(z3.Function("to_list.item", Fn, Fn, I, Fn)(_fnt(recv), _fnt(a[0]), k)), etype=T.fn))
+        eng.methods["to_list"] = m_to_list
+
+    def ensures(S, a, res):
+        if not isinstance(res, VInt):
+            return [("returns an integer", z3.BoolVal(False))]
+        return [("count_nodes(basis) = len(to_list(basis)) of the same node", res.t == TLEN(_fnt(a["self"]), _fnt(a["basis_functions"])))]
+
+    return Contract("DecoratedNode.count_nodes", {"self": mk_self, "basis_functions": T.fn}, ensures=ensures, setup=setup, raises=lambda S, a, e: z3.BoolVal(False))
